@@ -103,7 +103,8 @@ fn one(program_seed: u64, schedule_seed: u64, cause: &str, k: u64) -> Outcome {
         stuck = true;
     }
     let unfinished = bus.apps_running();
-    bus.log.push(json!({"t": "quiescent", "unfinished": unfinished}));
+    let panics_now: Vec<String> = bus.exec.panicked().iter().map(|p| format!("{}: {}", p.1, p.2)).collect();
+    bus.log.push(json!({"t": "quiescent", "unfinished": unfinished, "panics": panics_now}));
     for i in 0..bus.clients.len() {
         if let Some(h) = bus.clients[i].handle.take() {
             if prng.chance(1, 2) {
